@@ -92,9 +92,10 @@ def check_predicate(report):
     r3 = report.rule("C12.3", "rpc and module names avoid keywords and transport/client internals", floor=4)
     wr = m.module("gapic.schema.wrappers").path
     cmn = m.func("gapic.schema.wrappers.Method.client_method_name")
-    node, _ = find_match("self.name + '_' if self.name.lower() in keyword.kwlist else self.name", cmn.node)
+    from ..pymodel import nmatch as _nm
+    bb = _nm(m, "make_private(_ANYN_) if self.is_internal else _ANYN_", cmn, keep={"make_private"})
     r3.instance("client_method_name")
-    r3.check(node is not None and "make_private(" in ast.unparse(cmn.node) and "self.is_internal" in ast.unparse(cmn.node), wr, cmn.node.lineno,
+    r3.check(bb is not None and bb["_ANYN_"] == "f'{self.name}_' if self.name.lower() in keyword.kwlist else self.name", wr, cmn.node.lineno,
              "Method.client_method_name", "keyword rpc names get one trailing '_' (case-insensitively, because the method name is snake-cased); internal ones a leading '_'")
     tsn = m.func("gapic.schema.wrappers.Method.transport_safe_name")
     from ..pymodel import nmatch
